@@ -135,6 +135,8 @@ def _items():
         'pub fn sym_len_hi() -> (r: usize) ensures r == SYM_LEN_HI() { 8 }\n',
         'pub static mut SYM_LEN_HI: usize = 8;\npub fn sym_len_hi() -> usize { unsafe { SYM_LEN_HI } }\n')
     add('K_LEN', 'pub const K_LEN: usize = 5;\n', 'pub const K_LEN: usize = 5;\n')
+    add('LEN_P16', 'pub const LEN_P16: usize = 0x10;\n', 'pub const LEN_P16: usize = 0x10;\n')
+    add('LEN_P32', 'pub const LEN_P32: usize = 0x20;\n', 'pub const LEN_P32: usize = 0x20;\n')
     # ---- "any" family: generic and concrete custom functions
     add('san_vec',
         'pub fn san_vec<T: Ord>(mut v: Vec<T>) -> Vec<T> { v.sort(); v }\n',
